@@ -150,6 +150,59 @@ async fn run_case<TC: Configuration>(cc: &CaseCtx, case: &HistCase, l: &mut Loca
                     }
                 }
             }
+            // the whole published universe in one batch, in random order, sometimes with one label repeated
+            // (a repeated label may be refused as a whole; if it is served, every position must verify)
+            {
+                let mut all: Vec<Vec<u8>> = singles.iter().map(|s| s.0.clone()).collect();
+                let dup = rng.chance(1, 3);
+                if dup {
+                    let d = all[rng.usize_below(all.len())].clone();
+                    all.push(d);
+                }
+                rng.shuffle(&mut all);
+                let ls: Vec<AkdLabel> = all.iter().map(|x| AkdLabel(x.clone())).collect();
+                l.count("full_universe_batches", 1);
+                match w.dir.batch_lookup(&ls).await {
+                    Err(e) if dup => {
+                        let _ = e;
+                        l.count("batch_with_repeated_label_refused", 1)
+                    }
+                    Err(e) => {
+                        l.violation("C02:batch-lookup-failed", format!("batch_lookup of all {} published labels failed: {e}", ls.len()), ctxj(&ls[0].0));
+                        return;
+                    }
+                    Ok((proofs, eh)) => {
+                        if eh != want_eh || proofs.len() != ls.len() {
+                            l.violation("C02:batch-wrong-epoch-hash", "batch_lookup (full universe) returned another epoch hash or a wrong number of proofs", ctxj(&ls[0].0));
+                            return;
+                        }
+                        for (label, p) in all.iter().zip(proofs.into_iter()) {
+                            l.count("batch_proofs_verified", 1);
+                            let want = w.model.latest(label, epoch).cloned();
+                            match (w.verify_lookup(&eh, label, p), want) {
+                                (Ok(vr), Some(m)) if ver_matches(&m, &vr) => {}
+                                (got, want) => {
+                                    l.violation(
+                                        "C02:batch-differs-from-model",
+                                        format!("position of {} in a full-universe batch{}: verified to {:?}, model says {:?}", hx(label), if dup { " (one label repeated)" } else { "" }, got.map(|v| vr_json(&v)), want.map(|m| ver_json(&m))),
+                                        ctxj(label),
+                                    );
+                                    return;
+                                }
+                            }
+                        }
+                    }
+                }
+                // the empty batch
+                match w.dir.batch_lookup(&[]).await {
+                    Ok((ps, eh)) if ps.is_empty() && eh == want_eh => l.count("empty_batches", 1),
+                    Ok(_) => {
+                        l.violation("C02:empty-batch-wrong", "batch_lookup of no labels returned proofs or another epoch hash", ctxj(b""));
+                        return;
+                    }
+                    Err(_) => l.count("empty_batch_refused", 1),
+                }
+            }
             // a batch containing one never-published label: allowed to fail as a whole, must not serve it
             if let Some(unpub) = case.hist.universe.iter().find(|u| w.model.latest(u, epoch).is_none()) {
                 let mut ls = labels.clone();
